@@ -73,7 +73,7 @@ def run(ctx):
                          "truncate/extend beyond the example, deep payloads under any, escaped key spellings) and unrelated documents; both key-optionality configurations; verdict and "
                          "error code against the extracted Coq model, verdict against shape_ok; non-trivial = schema with a container and a document with a container")
     cases = []
-    ns = 1500 if quick else 40000
+    ns = 5000 if quick else 40000
     for _ in range(ns):
         w = J.rand_schema(rng, rng.randint(0, 5))
         for od in (False, True):
